@@ -116,6 +116,9 @@ pub fn execute(plan: &Plan, choices: Option<Vec<u32>>, record: bool, props: &[St
         add("planned_stalls", plan.sim.stalls.len() as u64);
         add("runs_with_eager_clock", (plan.sim.eager_clock_permille > 0) as u64);
         add("drop_all_handles", (plan.finale == Finale::DropAll) as u64);
+        if let Some(t) = plan.tags.iter().find(|t| t.starts_with("chaos_offset_")) {
+            add(&format!("enumerated_{}", t), 1);
+        }
         add("veto_by_validator", h.evs.iter().filter(|e| matches!(e.kind, EvKind::Validate { ok: false, .. })).count() as u64);
     }
     let mut state_hashes = Vec::new();
@@ -434,7 +437,7 @@ pub fn batch(prop: &str, base_seed: u64, n_runs: u64, workers: usize, wall_cap_s
                                     *agg.other_prop_violations.entry(format!("{}:{}", v.prop, v.rule)).or_default() += 1;
                                 }
                             }
-                            if agg.samples.len() < 1 && (s.nontrivial || i < workers as u64) && w == 0 {
+                            if agg.samples.len() < 1 && (s.nontrivial || i < workers as u64) && w < 3 {
                                 let mut ps = plan_summary(&plan);
                                 ps["end"] = serde_json::json!(s.end);
                                 ps["steps"] = serde_json::json!(s.steps);
